@@ -648,7 +648,8 @@ class InventoryItem(InventoryNodeBase):
             ),
             name=block["Name"],
             desc=block["Description"],
-            creation_date=block["CreationDate"],
+            # The block carries seconds since the epoch, the model (and `to_inventory_data()`) a datetime
+            creation_date=SchemaDate.from_llsd(block["CreationDate"], "legacy"),
         )
 
     def to_llsd(self, flavor: str = "legacy"):
